@@ -144,6 +144,7 @@ impl Ctx {
                 }
             }
             None => {
+                SIGNATURES.fetch_add(1, Ordering::SeqCst);
                 self.violations.insert(sig, v);
             }
         }
@@ -422,6 +423,7 @@ impl Agg {
                 }
             }
             None => {
+                SIGNATURES.fetch_add(1, Ordering::SeqCst);
                 self.violations.insert(sig, v);
             }
         }
@@ -479,7 +481,15 @@ fn run_worker_to_end(id: &str, a: &WorkerArgs, agg: &Mutex<Agg>) -> WorkerEnd {
         match rec["t"].as_str().unwrap_or("") {
             "p" => last_progress = rec["i"].as_u64(),
             "at" => last_at = rec["i"].as_u64(),
-            "d" => agg.lock().unwrap().absorb(&rec),
+            "d" => {
+                agg.lock().unwrap().absorb(&rec);
+                if crash_cap_reached() {
+                    let _ = child.kill();
+                    agg.lock().unwrap().stopped_early = true;
+                    end = Some(WorkerEnd::Done);
+                    break;
+                }
+            }
             "done" => {
                 agg.lock().unwrap().absorb(&rec);
                 end = Some(WorkerEnd::Done);
@@ -588,8 +598,13 @@ static CRASHES: std::sync::atomic::AtomicU64 = std::sync::atomic::AtomicU64::new
 const CRASH_CAP: u64 = 6;
 
 fn crash_cap_reached() -> bool {
-    CRASHES.load(Ordering::SeqCst) >= CRASH_CAP
+    CRASHES.load(Ordering::SeqCst) >= CRASH_CAP || SIGNATURES.load(Ordering::SeqCst) >= SIGNATURE_CAP
 }
+
+/// distinct violation signatures of this run; beyond SIGNATURE_CAP the run stops early (a change that breaks a
+/// property for thousands of inputs would otherwise spend its time shrinking each of them)
+static SIGNATURES: std::sync::atomic::AtomicU64 = std::sync::atomic::AtomicU64::new(0);
+const SIGNATURE_CAP: u64 = 150;
 
 fn record_crash(prop: &dyn Property, tier: Tier, idx: u64, kind: &str, agg: &Mutex<Agg>) {
     CRASHES.fetch_add(1, Ordering::SeqCst);
@@ -738,7 +753,7 @@ pub fn check(prop: &dyn Property, tier: Tier) -> i32 {
     cov.insert("samples".into(), json!(agg.samples));
     cov.insert("exhaustive".into(), json!(!agg.stopped_early));
     if agg.stopped_early {
-        cov.insert("stopped_early".into(), json!(format!("run cut short after {} confirmed hangs/aborts (each is reported); the remaining elements were not evaluated", CRASH_CAP)));
+        cov.insert("stopped_early".into(), json!(format!("run cut short after {} confirmed hangs/aborts or {} distinct violation signatures (each is reported); the remaining elements were not evaluated", CRASH_CAP, SIGNATURE_CAP)));
     }
     cov.insert("elements".into(), json!(size));
     cov.insert("trusted_base".into(), json!(meta.trusted_base));
@@ -788,7 +803,7 @@ pub fn check(prop: &dyn Property, tier: Tier) -> i32 {
         t0.elapsed().as_secs_f64()
     );
     if agg.stopped_early {
-        println!("NOTE: property={} run cut short after {} confirmed hangs/aborts; remaining elements not evaluated", id, CRASH_CAP);
+        println!("NOTE: property={} run cut short after {} confirmed hangs/aborts or {} distinct violation signatures; remaining elements not evaluated", id, CRASH_CAP, SIGNATURE_CAP);
         if new_violations == 0 {
             println!("MACHINERY-ERROR property={} run stopped early without a reportable violation", id);
             return 2;
